@@ -381,7 +381,7 @@ def fracText (nano : Nat) : List UInt8 := if nano = 0 then [] else 0x2E :: trimZ
 /-- the zone `rfc3339` writes -/
 def zoneText (off : Int) : List UInt8 :=
   if off = 0 then [0x5A]
-  else (if off < 0 then 0x2D else 0x2B) ::
+  else (if off ≤ -60 then 0x2D else 0x2B) ::
     (digits 2 (off.natAbs / 3600) ++ [0x3A] ++ digits 2 (off.natAbs % 3600 / 60))
 
 theorem rfc3339_eq (ns off : Int) :
@@ -403,7 +403,7 @@ theorem zone_spec (off : Int) (hoff : off % 60 = 0 ∧ -86400 < off ∧ off < 86
   · rw [if_neg h0]
     have hzh : off.natAbs / 3600 ≤ 23 := by omega
     have hzm : off.natAbs % 3600 / 60 ≤ 59 := by omega
-    by_cases hn : off < 0
+    by_cases hn : off ≤ -60
     · rw [if_pos hn]
       refine ⟨0x2D, _, rfl, by decide, by decide, ?_⟩
       have := parseZone_off true _ _ hzh hzm
